@@ -23,6 +23,7 @@ package main
 //       one by one in the order in which they began. Same events and monitor as R.
 //   C18 L # <event trace>   two overlapping Stop calls (documents F18c).
 //   C18 I ...               Execute immediately followed by Stop (no yield in between), see c18c.go.
+//   C18 K ...               producers parked inside Emit on a full data channel while Stop runs, see c18d.go.
 //   C18 W ... / C18 B ...   calls in flight while sinks are registered and Stop is called / user code blocked or
 //       re-entering on a pipeline goroutine while Stop or an expansion arrives: see c18b.go.
 
